@@ -497,7 +497,7 @@ func C18(r *core.Run) {
 					r.Violate("C18:"+why, fmt.Sprintf("user %s path %q: LookupBackend answered %q; admissible: %v, 404 admissible: %v", u, p, got, keysOf(allowed), allow404),
 						map[string]interface{}{"config": cfg, "user": u, "path": p}, map[string]interface{}{"got": got})
 				}
-				if rec.Cfg%997 == 0 && len(allowed) > 0 && ui == 0 {
+				if rec.Cfg%997 == 1 && len(allowed) > 0 && ui == 0 && len(cfg.Backends) <= 8 {
 					r.Sample(map[string]interface{}{"config": cfg.Backends, "user": u, "path": p, "answer": got, "admissible": keysOf(allowed), "404_admissible": allow404})
 				}
 			}
